@@ -942,6 +942,61 @@ def c14_2f(ck, prog):
     r.note('%d local DBusError objects examined' % n)
 
 
+REF_RE = __import__('re').compile(r'_ref$|_ref_unlocked$')
+COMP_RE = __import__('re').compile(r'unref|(^|_)free|_clear|destroy|cancel|finalize|_remove|disconnect|_close')
+REF_REVIEWED = {
+    'connection_record_shared_unlocked': 'the reference is meant to outlive the function ("hold a ref until it is '
+                                         'disconnected"); the caller drops the connection on failure',
+    'internal_bus_get': 'the reference is the one handed to the caller; the failure path closes and unrefs it',
+    'dbus_connection_borrow_message': 'a trace hook, not a reference count',
+    '_dbus_server_debug_pipe_new': 'the pipe hash reference is released by the failure path\'s own clean-up',
+}
+
+
+def c14_2g(ck, prog):
+    r = ck.rule('C14.2g', 'a reference taken in a function that can fail is given back on the failure paths that '
+                'follow it: after a *_ref () call, every failure exit has passed a releasing call (unref, free, clear, '
+                'cancel ...)', 'PAIR',
+                breaks='an out-of-memory failure in the middle of copying or remembering a set of objects leaves the '
+                'references taken so far behind (rules of an included configuration file, owners, connections)',
+                floor=20)
+    files = LEAK_FILES | {'bus/policy.c', 'bus/bus.c', 'bus/activation.c'}
+    n = 0
+    for fn in lib.prod_funcs(prog, files):
+        if not any(c.get('callee') and REF_RE.search(c['callee']) for b, i, c in fn.calls()):
+            continue
+        if fn.ret != 'dbus_bool_t' and '*' not in (fn.ret or ''):
+            continue
+        n += 1
+
+        def on_event(user, ev, ctx):
+            if ev['ev'] == 'call':
+                cal = ev['e'].get('callee') or ''
+                if REF_RE.search(cal):
+                    return (cal, ev['line'])
+                if COMP_RE.search(cal) and cal != '_dbus_list_clear':      # that one frees links, not what they hold
+                    return None
+            return user
+
+        def on_exit(user, ctx, ret, ev, fn=fn):
+            if user and ctx.ret_status(ret) == 'fail':
+                ctx.report('%s reports failure after %s (line %d) without a releasing call in between: the reference '
+                           'stays behind' % (fn.name, user[0], user[1]), ev['line'] if ev else fn.line,
+                           key=(user[0], ev['line'] if ev else 0))
+        try:
+            ex = Explorer(fn, init=None, on_event=on_event, on_exit=on_exit, track='auto', calls='ALL', cap=300000).run()
+        except AnalysisBroken:
+            r.note('%s: too many paths, not decided' % fn.name)
+            continue
+        if not ex.reports:
+            r.ok('%s:refs-released-on-failure' % fn.name)
+        elif fn.name in REF_REVIEWED:
+            r.ok('%s:refs-released-on-failure' % fn.name, {'reviewed': REF_REVIEWED[fn.name]})
+        else:
+            r.from_reports(ex.reports, keyfn=lambda k, rep, fn=fn: '%s:%s-not-released' % (fn.name, k[0]))
+    r.note('%d fallible functions that take references examined' % n)
+
+
 def c14_7(ck, prog):
     from rules.C09 import c09_2
     r7 = ck.rule('C14.7', 'a pending-reply slot is consumed only under an undo hook registered before the slot '
@@ -976,6 +1031,7 @@ def run(ck):
         c14_2d(ck, prog)
         c14_2e(ck, prog)
         c14_2f(ck, prog)
+        c14_2g(ck, prog)
         c14_7(ck, prog)
         from rules.C12 import c12_6
         c12_6(ck, prog, rid='C14.8')
